@@ -33,6 +33,7 @@ from vp import env
 VERIF_ROOT = env.VERIF_ROOT
 KNOWN_PATH = os.path.join(VERIF_ROOT, "known_findings.json")
 REPLAY_DIR = os.path.join(VERIF_ROOT, "replays")
+REPLAY_OUT = os.environ.get("VERIF_REPLAY_OUT") or REPLAY_DIR  # where new failing cases are written
 EVIDENCE_DIR = os.path.join(VERIF_ROOT, "evidence")
 
 MAX_KEYS_PER_SUBCHECK = 4  # collect-then-shrink: distinct root causes enumerated per sub-check
@@ -485,10 +486,10 @@ def replay_history(interp_factory):
 # driver
 # ---------------------------------------------------------------------------------------------
 def write_replay(prop, sub, failure):
-    os.makedirs(REPLAY_DIR, exist_ok=True)
+    os.makedirs(REPLAY_OUT, exist_ok=True)
     h = case_hash(failure["case"])
     safe = failure["key"].replace("/", "_").replace("@", "_at_")[:80]
-    path = os.path.join(REPLAY_DIR, "%s-%s-%s.json" % (prop, safe, h))
+    path = os.path.join(REPLAY_OUT, "%s-%s-%s.json" % (prop, safe, h))
     with open(path, "w") as f:
         json.dump({"property": prop, "subcheck": sub, "key": failure["key"],
                    "message": failure["msg"], "case": failure["case"]}, f, indent=1, sort_keys=True)
